@@ -83,6 +83,7 @@ class C12(fw.Prop):
         return fw.Case(f"crc spec {fw.hx(body)}", impl, "prop", d, tags=("frame", "fcs-has-flag" if 0x7E in x25_ref(body) else "frame"))
 
     _shared = None
+    _buffer = bytearray()
 
     @classmethod
     def shared(cls):
@@ -105,6 +106,14 @@ class C12(fw.Prop):
             out2 = self.shared().calculate_for(msg, lsb_first=lsb)
             if bytes(out2) != bytes(out):
                 return "ok " + fw.hx(out2) + " !shared-instance-differs-from-fresh " + fw.hx(out)
+            # one mutable buffer re-used for every message (as a caller assembling frames in place would): the value
+            # depends on the buffer's content, not on its identity
+            buf = C12._buffer
+            self.shared().calculate_for(buf, lsb_first=lsb)       # (the buffer with its previous content)
+            buf[:] = msg
+            out3 = self.shared().calculate_for(buf, lsb_first=lsb)
+            if bytes(out3) != bytes(out):
+                return "ok " + fw.hx(out3) + " !reused-buffer-differs-from-fresh " + fw.hx(out)
             ref = x25_ref(msg)
             if (out[::-1] if lsb else out) != ref:
                 return "ok " + fw.hx(out) + " !=ref " + fw.hx(ref)
@@ -146,6 +155,38 @@ class C12(fw.Prop):
             else:
                 msg = bytes(rng.getrandbits(8) for _ in range(ln))
             yield self.make_case({"msg": msg.hex(), "lsb_first": rng.random() < 0.2})
+        # messages whose register is exactly 0x0000 (and 0xFFFF) after 64, 256, 512, 1024, 2048, 4096 bytes, with more to
+        # follow: the values an implementation working in blocks could mistake for "nothing yet"
+        def reg_after(data):
+            reg = 0xFFFF
+            for b in data:
+                reg ^= b
+                for _ in range(8):
+                    reg = (reg >> 1) ^ 0x8408 if reg & 1 else reg >> 1
+            return reg
+        for boundary in ((64, 1024, 2048) if not deep else (64, 256, 512, 1024, 2048, 3072, 4096)):
+            for want in (0x0000, 0xFFFF):
+                head = bytes(rng.getrandbits(8) for _ in range(boundary - 2))
+                reg = reg_after(head)
+                # the two bytes that bring the register to `want`: the register is linear in them - solve by search
+                # over the first byte (256) and closed form for the second
+                found = None
+                for b0 in range(256):
+                    r1 = reg ^ b0
+                    for _ in range(8):
+                        r1 = (r1 >> 1) ^ 0x8408 if r1 & 1 else r1 >> 1
+                    for b1 in range(256):
+                        r2 = r1 ^ b1
+                        for _ in range(8):
+                            r2 = (r2 >> 1) ^ 0x8408 if r2 & 1 else r2 >> 1
+                        if r2 == want:
+                            found = bytes([b0, b1])
+                            break
+                    if found:
+                        break
+                if found:
+                    for tail in (b"", b"\x00", bytes(rng.getrandbits(8) for _ in range(rng.randint(1, 200)))):
+                        yield self.make_case({"msg": (head + found + tail).hex()})
         # frames: re-used frame objects, and check values that contain the flag byte or a zero byte
         want = {"7e-first": 0, "7e-second": 0, "00-first": 0, "00-second": 0}
         k = 0
